@@ -224,6 +224,9 @@ def qprob(q):
     return PTITEM.get(QITEM.rec().get(q, 'pt_item'), 'prob')
 
 
+HOOKS = {}     # filled by contracts.guesser_lemmas (lemma instances used as hints)
+
+
 # ------------------------------------------------------------------------------- contracts
 def V(v):
     return v.term
@@ -300,7 +303,8 @@ def item_wf(G, it):
     pt = PTITEM.get(it, 'pt')
     return z3.And(wf_pt(G, pt), PT.len(pt) >= 0, T.fval(PTITEM.get(it, 'base_prob')) >= 0,
                   T.fval(PTITEM.get(it, 'base_prob')) <= 1,
-                  PTITEM.get(it, 'prob') == P(G, pt, PTITEM.get(it, 'base_prob')))
+                  PTITEM.get(it, 'prob') == P(G, pt, PTITEM.get(it, 'base_prob')),
+                  T.fval(PTITEM.get(it, 'prob')) <= 1)
 
 
 def items_wf(G, items, n):
@@ -335,14 +339,16 @@ def _init_base_inv_inner(L):
 Contract(
     MOD + ':PcfgGrammar.initalize_base_structures',
     params={'self': GRAMMAR_OBJ},
-    requires=lambda c: [('wf_base', wf_base(g_of(c.self), c.self.fields['base'].term))],
+    requires=lambda c: [('wf_base', wf_base(g_of(c.self), c.self.fields['base'].term)),
+                        ('probs_unit', HOOKS['probs_unit'](g_of(c.self)))],
     result=PTITEMS,
     ensures=lambda c: [('roots', V(c.result) == Roots(g_of(c.self), c.self.fields['base'].term,
                                                        BASE.len(c.self.fields['base'].term))),
                        ('len', PTITEMS.len(V(c.result)) == BASE.len(c.self.fields['base'].term)),
                        ('items_wf', items_wf(g_of(c.self), V(c.result), PTITEMS.len(V(c.result))))],
     locals={'pt_list': PTITEMS, 'pt_item': TRec({'base_prob': TF, 'pt': PT})},
-    loops={0: LoopSpec(fingerprint='for item in self.base', inv=_init_base_inv_outer),
+    loops={0: LoopSpec(fingerprint='for item in self.base', inv=_init_base_inv_outer,
+                       hints=lambda L: HOOKS['init_base_hint'](L)),
            1: LoopSpec(fingerprint="for replacement in item['replacements']", inv=_init_base_inv_inner,
                        shapes={'pt_item': TRec({'base_prob': TF, 'pt': PT})})},
     note='C01: one most-probable node per base structure, prob = P(root)',
@@ -398,10 +404,7 @@ def _next_requires(c):
     bag = c.self.fields['p_queue'].term
     q = z3.Const('q!n', QITEM.sort())
     return [('rep_inv', in_bag_all_wf(G, bag)),
-            ('counts_nonneg', z3.ForAll([q], z3.Select(bag, q) >= 0, patterns=[z3.Select(bag, q)])),
-            ('size_nonneg', bag_size(bag) >= 0),
-            ('empty_iff', z3.Implies(bag_size(bag) == 0, z3.ForAll([q], z3.Select(bag, q) == 0,
-                                                                     patterns=[z3.Select(bag, q)])))]
+            ('counts_nonneg', z3.ForAll([q], z3.Select(bag, q) >= 0, patterns=[z3.Select(bag, q)]))]
 
 
 def _next_case_none():
